@@ -279,8 +279,12 @@ REPLAY = {"nosalt_main": check_nosalt_main, "seeds": check_seeds, "history": che
 
 @st.composite
 def _opts(draw, networks="maybe"):
+    cfg = draw(G.config(networks=networks))
+    if draw(st.booleans()):
+        # salts whose first character is one of the 65 $9$ characters (it selects the $9$ rendering)
+        cfg["salt"] = draw(st.sampled_from(["Qa", "za", "Fx", "3a", "na", "Bb", "7c", "ia", "Hq", "-x", ".y", "T1"]))
     return {
-        "cfg": draw(G.config(networks=networks)),
+        "cfg": cfg,
         "features": draw(st.lists(st.booleans(), min_size=4, max_size=4).filter(any)),
         "words": draw(st.lists(st.sampled_from(WORD_POOL), min_size=1, max_size=4, unique=True)),
         "reserved": draw(st.lists(st.sampled_from(RES_POOL), max_size=2, unique=True)),
@@ -300,7 +304,7 @@ def _text(draw, optss, max_lines=8):
             vals = [draw(st.sampled_from(words)) if draw(st.integers(0, 5)) == 0 and "exact" not in form.text_kw else draw(S.secret_for(form))[1] for _s in range(form.slots)]
             lines.append(S.render(form, draw(st.integers(0, 20)), draw(st.integers(0, 5)), vals)[0])
         elif k == 1:
-            lines.append("set password " + draw(S.sha512_value()))
+            lines.append("set password " + draw(st.one_of(S.sha512_value(), S.j9_value(), S.j9_value(), S.md5_value(), S.type7_value())))
         elif k == 2:
             w = draw(st.sampled_from(words))
             lines.append("hostname %s%s-%s %s" % (draw(st.sampled_from(["", "x"])), w, draw(st.sampled_from(words)), draw(st.sampled_from([w.upper(), "sea seattle sear", "intranet"]))))
